@@ -92,6 +92,7 @@ def judge(ctx, g, doc, opts, text, out, fails, case):
     want = Counter()
     got = Counter()
     want_annotated = []
+    want_nary = []
     label_of = None
     from prov.dot import DOT_PROV_STYLE
     n_rel = 0
@@ -104,6 +105,12 @@ def judge(ctx, g, doc, opts, text, out, fails, case):
                 if q0 is not None and q1 is not None:      # the property speaks of relations with two endpoints
                     want[(lbl, dot_parsed(q0.uri), dot_parsed(q1.uri))] += 1
                     n_rel += 1
+                    if opts.get("show_nary", True):
+                        # further names the relation refers to (activity / generation / usage of a derivation, plan of an
+                        # association, ...): merely referenced or declared, each has a node, reached from the relation's path
+                        for (a_, v_) in refs[2:]:
+                            if v_ is not None:
+                                want_nary.append((lbl, dot_parsed(q0.uri), dot_parsed(q1.uri), a_.localpart, dot_parsed(v_.uri)))
                     others = [(a, v) for (a, v) in r.attributes if a not in PROV_ATTRIBUTE_QNAMES]
                     if others and opts.get("show_relation_attributes", True):
                         want_annotated.append((lbl, dot_parsed(q0.uri), dot_parsed(q1.uri), [str(a) for (a, _v) in others]))
@@ -172,6 +179,20 @@ def judge(ctx, g, doc, opts, text, out, fails, case):
                             break
     # every referenced name has a node
     urls = {n["url"] for n in nodes if n["url"]}
+    for (lbl, u0, u1, aname, u) in want_nary:
+        if u not in urls:
+            fails.append(Failure("oracle", None, "relation %s(%s, %s) refers to %s as its %s, which has no node" % (lbl, u0, u1, u, aname), case))
+            break
+        # the extra segment: an edge labelled with the attribute name from a blank node of this relation's path to that node
+        ok = False
+        for e in graph["edges"]:
+            t_ = by_name.get(e["tail"], {})
+            if t_.get("shape") == "point" and e["tail"].startswith("b") and e["label"] == aname and by_name[e["head"]]["url"] == u:
+                ok = True
+                break
+        if not ok:
+            fails.append(Failure("oracle", None, "relation %s(%s, %s): no %s segment to %s" % (lbl, u0, u1, aname, u), case))
+            break
     for (lbl, u0, u1) in want:
         for u in (u0, u1):
             if u is not None and u not in urls:
